@@ -4,7 +4,8 @@
 (* the housekeeping task with the handler.  The statement is written over the history `log`.  *)
 EXTENDS KernelCore, Json
 
-CONSTANTS MaxReqs, Tags, TwoClients, Stores
+CONSTANTS MaxReqs, Tags, TwoClients, Stores,
+          Pipelining    \* FALSE: clients write the next request only when the session is quiescent
 \* identities (routing prefix) of the requesting client: one frame, or two frames (a client behind a proxy)
 Who == IF TwoClients THEN {<<"A">>, <<"B", "b2">>} ELSE {<<"A">>}
 
@@ -33,7 +34,9 @@ Init == KInit
 \* clients write only while the handler is reading (several in a row = pipelining); a write in the middle
 \* of a request's handling is equivalent for the kernel, which does not look at its input before `wait`
 Sent == nreq + Len(inbox)
-Next == Internal \/ (pc = "wait" /\ Sent < MaxReqs /\ \E r \in Universe(Sent + 1) : Send(r))
+Next == Internal \/ (/\ pc = "wait" /\ Sent < MaxReqs
+                     /\ Pipelining \/ (inbox = <<>> /\ hq = <<>>)
+                     /\ \E r \in Universe(Sent + 1) : Send(r))
 Spec == Init /\ [][Next]_kvars
 
 \* ---------------------------------------------------------------- the statement, over the history
